@@ -28,10 +28,38 @@ def useful(seq):
 
 
 def run_histories(exe, pool, programs, env=None):
-    lines = ["P " + driver.hx(a) for a in pool] + ["W"] + ["H " + " ".join(p) for p in programs]
-    recs, crashes = driver.run_lines_resilient(exe, lines, env=env)
-    off = len(pool) + 1
-    return recs[off:], [(i - off, s, e) for i, s, e in crashes]
+    """Run the programs; returns (traces with None for the crashed ones, [(program index, signature, stderr)]).
+    A crash kills the driver and with it the loaded pool, so the remaining programs are re-run in a new process that
+    loads the pool again."""
+    head = ["P " + driver.hx(a) for a in pool] + ["W"]
+    traces = [None] * len(programs)
+    crashes = []
+    start = 0
+    while start < len(programs):
+        lines = head + ["H " + " ".join(p) for p in programs[start:]]
+        try:
+            recs = driver.run_lines(exe, lines, env=env)
+            traces[start:] = recs[len(head):]
+            break
+        except driver.DriverCrash as c:
+            done = c.index - len(head)
+            if done < 0:
+                crashes.append((-1, c.signature(), c.stderr))     # died while loading / warming up
+                break
+            traces[start:start + done] = c.records[len(head):len(head) + done]
+            bad = start + done
+            if bad >= len(programs):
+                crashes.append((-1, c.signature(), c.stderr))     # died at exit (e.g. leak report)
+                break
+            crashes.append((bad, c.signature(), c.stderr))
+            start = bad + 1
+            if len(crashes) > 40:
+                break
+        except driver.DriverHang as h:
+            bad = start + max(0, h.index - len(head))
+            crashes.append((min(bad, len(programs) - 1), "hang/no-termination", str(h)))
+            start = bad + 1
+    return traces, crashes
 
 
 def check_trace(prog, trace, mdl, part, extra=False, idnmsgs=None, src="hist", fault=None):
@@ -69,8 +97,12 @@ def check_trace(prog, trace, mdl, part, extra=False, idnmsgs=None, src="hist", f
                     raise core.Inconclusive("driver skipped a validation the model allows: %s" % wit)
                 continue
             _, idx, obs, live, expblocks, fresh, fired, fcode, dconf, dtld, dallow = st
-            if (dconf, dtld, dallow) != (confirmed, tld, allow):
-                raise core.Inconclusive("driver/model settings diverge: %s vs %s in %s" % ((dconf, dtld, dallow), (confirmed, tld, allow), wit))
+            if dconf != confirmed:
+                raise core.Inconclusive("driver/model confirmed mode diverge: %s vs %s in %s" % (dconf, confirmed, wit))
+            if (dtld, dallow) != (tld, allow):
+                part["viol"].append(("settings-changed-by-library", wit, {"step": op, "tld_check,allow_tld": [dtld, dallow],
+                                     "set_by_caller": [tld, allow], "source": src}))
+                tld, allow = dtld, dallow
             cnt["is_email"] += 1
             cnt["is_email.mode%d" % confirmed] += 1
             if fired:
